@@ -21,7 +21,14 @@ the tensor.
 Encodings of the sample tensor (seed round 4): the same basis states handed over in every dtype x memory layout that the unchanged
 library evaluates correctly (table at ENC_*), on fixed states that run first, on every state of the random stream and in histories
 that alternate encodings on one pool of observables; the oracle is the same trace identity (tolerance widened by 4 rounding units
-of the dtype apply returns).  Dtypes the unchanged library rejects or mis-evaluates are evaluated and only counted."""
+of the dtype apply returns).  Dtypes the unchanged library rejects or mis-evaluates are evaluated and only counted.
+
+Configurations (seed round 5): EVERY architecture of the stated ranges (nv 1..5, nh and na 1..nv+1 and a few wider ones) once, in a fixed block
+that runs first, with EVERY parameter tensor of EVERY network drawn at random - including the auxiliary bias of a DensityMatrix's PHASE network,
+which the library initialises to zero and never trains but which is a parameter of the model (the reconstructed matrix does not depend on it) -
+and the state built through every documented construction path (sizes, module= with the two networks then written in place with different
+values, save + autoload, save + load); the oracle there is rho built by numpy alone from the formula (np_rho) on the parameters the live
+object holds.  The random stream and the histories give the phase network a non-zero auxiliary bias in a fraction of the mixed states."""
 import math, time, copy, os
 import numpy as np
 import gen
@@ -65,7 +72,18 @@ RULE = ("state types positive/complex/mixed, nv 1..5 in both tiers (quick: fewer
         "NO WRITE to the caller's tensor: besides equal contents / dtype / shape / strides, torch's write counter (_version) of the sample tensor must not move "
         "during apply (every apply of the check), tensors that cannot be written (one row expanded with stride 0, inference-mode tensors) must be accepted, and a "
         "FAULT inside the state (a delegating stand-in whose k-th importance_sampling_numerator / _weight call raises, k = 1..n on the fixed states, drawn otherwise) "
-        "must leave the tensor holding its values, the next ordinary apply of the same instance giving the per-sample values")
+        "must leave the tensor holding its values, the next ordinary apply of the same instance giving the per-sample values; "
+        "ARCHITECTURES x EVERY PARAMETER TENSOR x CONSTRUCTION PATHS (seed round 5; a fixed block that does not depend on the seed and runs FIRST): every "
+        "(state type, nv, nh[, na]) with nv 1..5, nh 1..nv+1, na 1..nv+1 - 20 positive, 20 complex, 90 mixed, so num_hidden + num_aux < num_visible, "
+        "num_aux > num_hidden, num_hidden = 1 with num_visible = 5 ... all occur - plus nh = 2nv+1 and (nh, na) = (2nv+1, 1), (1, 2nv+2), (2nv+1, 2nv+1); every "
+        "parameter tensor of both networks N(0, 0.8) with no entry near zero, the PHASE network's auxiliary bias of a mixed state included in two of every "
+        "three mixed architectures (N(0, 1.2); the documented zero in the third); the state is built through the construction paths in rotation - sizes + "
+        "gen.set_*; module=<RBM> followed by IN-PLACE writes of different values into the two networks; save + <Class>.autoload; save + load into a fresh state "
+        "of the same sizes - and then every observable (X, Y, Z, absolute off/on, ZZ for every c and both boundaries) is applied ONCE to the full basis: "
+        "sum_s p(s)/Z apply(s) == Re tr(rho Op) with rho, p built by numpy from the formula on the parameters read from the live object (a construction "
+        "path that raises or stores other values is counted, not required), tensor unchanged, one real per row, |.|; "
+        "the random stream gives 60 % of the mixed states a non-zero phase auxiliary bias (N(0,1), U[-pi, pi] or up to 30; own generator, the seed's stream "
+        "is what it was) and ~15 % of the states a network wider than nv + 1 (nh / na up to 2nv + 2), the histories two of three (every write of 'all parameters' then includes it), one of the two fixed mixed encoding states has it")
 ASSUMPTIONS = ["torch elementwise kernels implement the real functions up to rounding",
                "states with |effective energy| > 300 are skipped (double overflow in |psi|^2 products), counted as skipped_overflow",
                "histories: a mutation operator is the CALLER's action (torch in-place ops, fit, load, optimizer ...); when the operator itself raises, "
@@ -88,7 +106,13 @@ ASSUMPTIONS = ["torch elementwise kernels implement the real functions up to rou
                "requires_grad=False), so such states are not generated",
                "the sample tensor's write counter (torch's _version) is required not to move during apply: 'leaves the sample array unchanged' is read as 'does not "
                "write to it' (a write that is undone before returning is visible to a concurrent reader, fails on unwritable tensors and is left behind by an exception); "
-               "the fault stand-in delegates every attribute to the real state and does not subclass or patch the library"]
+               "the fault stand-in delegates every attribute to the real state and does not subclass or patch the library",
+               "seed C08e (DensityMatrix.pi(expand=False) through rbm_ph.mixing_term, which adds the phase network's auxiliary bias) is IN the property: the quantifier "
+               "says 'all parameters', rbm_ph.aux_bias is a registered parameter of the model (state dict, files, load), and the unchanged library satisfies the "
+               "statement for every value of it because the reconstructed matrix exp(Gamma+ + i Gamma- + Pi) does not contain it; the oracle's rho is that formula",
+               "construction paths (module=, autoload, load) are only a way of obtaining a state here: whether the path stores the values it was given is C11 / C20's "
+               "clause (a path that raises or stores other values is counted); C08's oracle is evaluated on the parameters the live object holds afterwards",
+               "1-D sample tensors and empty batches are outside 'one real number per sample' of a sample ARRAY (SigmaZ's mean(1) rejects 1-D input on the unchanged tree): not generated"]
 
 I2 = np.eye(2, dtype=complex)
 PX = np.array([[0, 1], [1, 0]], dtype=complex)
@@ -253,6 +277,49 @@ def draw(ctx, kind, nv, nh, na):
     if big:
         ph = large_biases(ctx, ph, 1)
     return {"am": gen.plist(*am), "ph": gen.plist(*ph)}
+
+
+def aux_rng(ctx):
+    """generator of the phase network's auxiliary bias (seed round 5): derived from the seed, separate from ctx.rng, so that draw() - which
+    c09.py imports - consumes the seed's stream exactly as before"""
+    if not hasattr(ctx, "_c08_aux_rng"):
+        ctx._c08_aux_rng = np.random.Generator(np.random.PCG64([int(ctx.seed) & 0xFFFFFFFF, 0xC08E]))
+    return ctx._c08_aux_rng
+
+
+def draw_all(ctx, kind, nv, nh, na):
+    """draw() + in 60 % of the mixed states a NON-ZERO auxiliary bias of the phase network (seed C08e): the library initialises that tensor to
+    zero and never trains it, but it is a parameter of the model (state dict, files) and the reconstructed matrix does not depend on it."""
+    params = draw(ctx, kind, nv, nh, na)
+    if kind != "mixed":
+        return params
+    g = aux_rng(ctx)
+    r = g.random()
+    if r < 0.4:
+        ctx.count("phase aux bias: zero (as the library initialises it)")
+        return params
+    if r < 0.7:
+        d = g.normal(size=na)
+    elif r < 0.9:
+        d = g.uniform(-np.pi, np.pi, size=na)
+    else:
+        d = np.exp(g.uniform(np.log(1e-3), np.log(30.0), size=na)) * g.choice([-1.0, 1.0], size=na)
+    d[np.abs(d) < 1e-3] = 0.37
+    params["ph"][4] = d.tolist()
+    ctx.count("phase aux bias: non-zero")
+    return params
+
+
+def widen(ctx, kind, nv, nh, na):
+    """in ~15 % of the random states a network WIDER than nv + 1 (nh, na up to 2nv + 2; the quantifier does not bound them); own generator"""
+    g = aux_rng(ctx)
+    if g.random() < 0.15:
+        nh = int(g.integers(nv + 2, 2 * nv + 3))
+        ctx.count("architecture: num_hidden > nv + 1")
+    if kind == "mixed" and g.random() < 0.15:
+        na = int(g.integers(nv + 2, 2 * nv + 3))
+        ctx.count("architecture: num_aux > nv + 1")
+    return nh, na
 
 
 def model_state_args(kind, params):
@@ -828,13 +895,14 @@ FIXED_ENCODING_STATES = [
     {"kind": "complex", "nv": 3, "nh": 2, "na": 0, "pseed": 840002},
     {"kind": "mixed", "nv": 2, "nh": 2, "na": 2, "pseed": 840003},
     {"kind": "positive", "nv": 1, "nh": 1, "na": 0, "pseed": 840004},
-    {"kind": "mixed", "nv": 3, "nh": 3, "na": 2, "pseed": 840005},
+    {"kind": "mixed", "nv": 3, "nh": 3, "na": 2, "pseed": 840005, "ph_aux": True},
     {"kind": "complex", "nv": 4, "nh": 3, "na": 0, "pseed": 840006},
 ]
 
 
 def fixed_params(spec):
-    """parameters of a fixed encoding state: N(0, 0.8), no bias entry near 0, phase aux bias 0 (own generator, independent of the seed)"""
+    """parameters of a fixed encoding state: N(0, 0.8), no bias entry near 0, phase aux bias 0 unless the spec says "ph_aux" (own generator,
+    independent of the seed; the extra draw comes last, the other values are what they were)"""
     g = np.random.Generator(np.random.PCG64(int(spec["pseed"])))
 
     def v(shape, bias=False):
@@ -845,7 +913,7 @@ def fixed_params(spec):
     kind, nv, nh, na = spec["kind"], spec["nv"], spec["nh"], spec["na"]
     if kind == "mixed":
         return {"am": gen.plist(v((nh, nv)), v((na, nv)), v(nv, True), v(nh, True), v(na, True)),
-                "ph": gen.plist(v((nh, nv)), v((na, nv)), v(nv, True), v(nh, True), np.zeros(na))}
+                "ph": gen.plist(v((nh, nv)), v((na, nv)), v(nv, True), v(nh, True), v(na, True) if spec.get("ph_aux") else np.zeros(na))}
     out = {"am": gen.plist(v((nh, nv)), v(nv, True), v(nh, True))}
     if kind == "complex":
         out["ph"] = gen.plist(v((nh, nv)), v(nv, True), v(nh, True))
@@ -975,6 +1043,9 @@ class Hist:
         self.rng = np.random.Generator(np.random.PCG64(int(spec["hseed"])))
         self.step, self.log, self.kept = 0, [], []
         self.only = spec.get("only_ops")
+        # seed round 5: in two of three histories EVERY parameter tensor is written, the phase network's auxiliary bias of a mixed state included
+        # (the library initialises it to zero and never trains it; reinitialize_parameters / initialize_parameters put the zero back)
+        self.ph_aux = bool(spec["ph_aux"]) if "ph_aux" in spec else (int(spec["hseed"]) % 3 != 0)
 
     def bits(self, n):
         return int(self.rng.integers(0, n))
@@ -1005,7 +1076,8 @@ def new_state(H, kind, nv, nh=None, na=None):
     na = (int(H.rng.integers(1, nv + 2)) if na is None else na) if kind == "mixed" else 0
     if kind == "mixed":
         am = [H.values((nh, nv)), H.values((na, nv)), H.values(nv, True), H.values(nh, True), H.values(na, True)]
-        ph = [H.values((nh, nv)), H.values((na, nv)), H.values(nv, True), H.values(nh, True), np.zeros(na)]
+        ph = [H.values((nh, nv)), H.values((na, nv)), H.values(nv, True), H.values(nh, True), H.values(na, True) if H.ph_aux else np.zeros(na)]
+        H.ctx.count("history: mixed state, phase aux bias " + ("non-zero" if H.ph_aux else "zero (as the library initialises it)"))
         params = {"am": gen.plist(*am), "ph": gen.plist(*ph)}
     else:
         params = {"am": gen.plist(H.values((nh, nv)), H.values(nv, True), H.values(nh, True))}
@@ -1372,7 +1444,7 @@ def param_ops(H, box):
         out = {}
         for k in PNAMES[kind]:
             shape = tuple(getattr(rbm, k).shape)
-            out[k] = np.zeros(shape) if (kind == "mixed" and net == "rbm_ph" and k == "aux_bias") else H.values(shape, is_bias(k))
+            out[k] = np.zeros(shape) if (kind == "mixed" and net == "rbm_ph" and k == "aux_bias" and not H.ph_aux) else H.values(shape, is_bias(k))
         return out
 
     def each_param(fn, all_nets=True):
@@ -1416,7 +1488,7 @@ def param_ops(H, box):
             ps = list(rbm.parameters())
             vec = T(H.values(sum(p.numel() for p in ps)))
             torch.nn.utils.vector_to_parameters(vec, ps)
-            if kind == "mixed" and net == "rbm_ph":
+            if kind == "mixed" and net == "rbm_ph" and not H.ph_aux:
                 rbm.aux_bias.data = torch.zeros_like(rbm.aux_bias)
 
     def donor_state():
@@ -1445,7 +1517,7 @@ def param_ops(H, box):
             torch.optim.SGD(ps, lr=0.3).step()
             for p in ps:
                 p.grad = None
-            if kind == "mixed" and net == "rbm_ph":
+            if kind == "mixed" and net == "rbm_ph" and not H.ph_aux:
                 getattr(s, net).aux_bias.data.zero_()
 
     def short_fit():
@@ -1766,6 +1838,165 @@ def script_encodings(H):
     return box
 
 
+# =========================================================================== ARCHITECTURES x EVERY parameter tensor x CONSTRUCTION PATHS
+# Seed round 5 (C08e): DensityMatrix.pi(expand=False) - the only form the X / Y estimators use - rewritten with rbm_ph.mixing_term, which adds
+# the PHASE network's auxiliary bias; the full matrix rho(space, space) never reads that bias.  The library initialises it to zero and never
+# trains it, every generator of this check kept "the documented zero", so nothing ever saw it.  The class: CONFIGURATIONS inside the
+# quantifier that the generators never build - a parameter that stays zero in ordinary use, an asymmetric architecture in which a formula
+# written for the symmetric one goes wrong (nh + na < nv, na > nh, nh = 1 with nv = 5 ...), a state obtained through module= / autoload /
+# load instead of the sizes, a path only one state type / call form uses (expand=False).  Closed by enumeration: every architecture of
+# the ranges once, every parameter tensor of every network random, the construction paths in rotation, every observable once on the full
+# basis, against rho built by numpy from the formula on the parameters the live object holds.
+CONSTRUCTION_PATHS = ("sizes", "module=", "autoload", "load")
+
+
+def arch_list():
+    """[(kind, nv, nh, na)]: every architecture with nv 1..5, nh 1..nv+1 (na 1..nv+1) + a few wider ones"""
+    out = []
+    for nv in range(1, 6):
+        for nh in list(range(1, nv + 2)) + [2 * nv + 1]:
+            out.append(("complex", nv, nh, 0))
+            out.append(("positive", nv, nh, 0))
+        for nh in range(1, nv + 2):
+            for na in range(1, nv + 2):
+                out.append(("mixed", nv, nh, na))
+        out += [("mixed", nv, 2 * nv + 1, 1), ("mixed", nv, 1, 2 * nv + 2), ("mixed", nv, 2 * nv + 1, 2 * nv + 1)]
+    return out
+
+
+def arch_params(idx, kind, nv, nh, na, ph_aux):
+    """every parameter tensor N(0, 0.8), no bias entry near zero; the phase network's auxiliary bias N(0, 1.2) when ph_aux (else the
+    documented zero).  Own generator per architecture, independent of the seed."""
+    g = np.random.Generator(np.random.PCG64([0xC08E, int(idx)]))
+
+    def v(shape, bias=False, scale=0.8):
+        x = g.normal(size=shape) * scale
+        if bias:
+            x[np.abs(x) < 1e-2] = 0.37
+        return x
+    if kind == "mixed":
+        return {"am": gen.plist(v((nh, nv)), v((na, nv)), v(nv, True), v(nh, True), v(na, True)),
+                "ph": gen.plist(v((nh, nv)), v((na, nv)), v(nv, True), v(nh, True), v(na, True, 1.2) if ph_aux else np.zeros(na))}
+    out = {"am": gen.plist(v((nh, nv)), v(nv, True), v(nh, True))}
+    if kind == "complex":
+        out["ph"] = gen.plist(v((nh, nv)), v(nv, True), v(nh, True))
+    return out
+
+
+def build_via(ctx, path, kind, nv, nh, na, params, tag, rewrite_am=True):
+    """A real state holding `params`, obtained through one documented construction path."""
+    import torch
+    from qucumber.nn_states import PositiveWaveFunction, ComplexWaveFunction, DensityMatrix
+    from qucumber.rbm import BinaryRBM, PurificationRBM
+    if path == "sizes":
+        return build(kind, nv, nh, na, params)
+    Cls = {"positive": PositiveWaveFunction, "complex": ComplexWaveFunction, "mixed": DensityMatrix}[kind]
+    sizes = (nv, nh, na) if kind == "mixed" else (nv, nh)
+    T = lambda a: torch.tensor(np.asarray(a, dtype=float), dtype=torch.double)
+    names = PNAMES[kind]
+    if path == "module=":
+        mod = PurificationRBM(nv, nh, na, gpu=False) if kind == "mixed" else BinaryRBM(nv, nh, gpu=False)
+        for k, val in zip(names, params["am"]):
+            getattr(mod, k).data.copy_(T(val))
+        s = Cls(*sizes, gpu=False, module=mod)
+        # the two networks (the module and its copy) are then written IN PLACE with different values: the phase network first ...
+        if kind != "positive":
+            for j, (k, val) in enumerate(zip(names, params["ph"])):
+                p = getattr(s.rbm_ph, k)
+                if j % 2:
+                    with torch.no_grad():
+                        p.copy_(T(val))
+                else:
+                    p.data.copy_(T(val))
+        # ... and (every second time) the amplitude network once more
+        if rewrite_am:
+            for k, val in zip(names, params["am"]):
+                with torch.no_grad():
+                    getattr(s.rbm_am, k).copy_(T(val))
+        return s
+    donor = build(kind, nv, nh, na, params)
+    fn = os.path.join(ctx.scratch, "c08_arch_%s.pt" % tag)
+    donor.save(fn)
+    if path == "autoload":
+        s = Cls.autoload(fn, gpu=False)
+    elif path == "load":
+        s = Cls(*sizes, gpu=False)
+        s.load(fn)
+    else:
+        raise ValueError(path)
+    try:
+        os.remove(fn)
+    except OSError:
+        pass
+    return s
+
+
+def arch_one(ctx, idx, kind, nv, nh, na, path, ph_aux, params=None):
+    """One architecture: all parameters random, built through `path`, every observable ONCE on the full basis against the formula."""
+    import torch
+    import warnings
+    if params is None:
+        params = arch_params(idx, kind, nv, nh, na, ph_aux)
+    case = {"state": kind, "nv": nv, "nh": nh, "na": na, "arch_index": int(idx), "constructed_through": path, "params": params}
+    if kind == "mixed":
+        case["phase_aux_bias"] = "non-zero" if ph_aux else "zero (as the library initialises it)"
+    try:
+        with warnings.catch_warnings():
+            warnings.simplefilter("ignore")
+            s = build_via(ctx, path, kind, nv, nh, na, params, "%d" % idx, rewrite_am=bool(idx % 2))
+    except Exception:
+        ctx.count("architectures: construction path '%s' raised (C11 / C20's clause; not required here), state built from the sizes instead" % path)
+        path = case["constructed_through"] = "sizes"
+        s = build(kind, nv, nh, na, params)
+    ctx.count("architectures: %s through %s" % (kind, path) + ((", phase aux bias " + case["phase_aux_bias"].split(" (")[0]) if kind == "mixed" else ""))
+    ctx.count("architecture regime: " + ("nh + na < nv" if kind == "mixed" and nh + na < nv else "na > nh" if na > nh else "nh = 1, nv >= 4" if nh == 1 and nv >= 4
+                                         else "nh > nv" if nh > nv else "other"))
+    sp = gen.all_states(nv)
+    P = live_params(s, kind)
+    want_P = {k: [np.asarray(a, dtype=float) for a in v] for k, v in params.items()}
+    if any(a.shape != b.shape or not np.array_equal(a, b) for k in want_P for a, b in zip(P[k], want_P[k])):
+        ctx.count("architectures: the live state does not hold the values handed to '%s' (C11 / C20's clause; the oracle uses the live ones)" % path)
+    rho = np_rho(kind, P, sp)
+    d = np.real(np.diag(rho))
+    if not (np.all(np.isfinite(rho)) and np.all(d > 0)):
+        ctx.count("skipped_overflow")
+        return
+    ctx.case({"architecture": kind, "nv": nv, "nh": nh, "na": na, "through": path, "phase_aux_bias": case.get("phase_aux_bias")}, nontrivial=True)
+    rho_n = rho / np.trace(rho)
+    w = d / float(d.sum())
+    x = torch.tensor(sp, dtype=torch.double)          # ONE tensor for all observables of this state
+    vals = {}
+    for name, ctor, Op, twin in obs_table(nv):
+        c2 = dict(case, observable=name)
+        ok, O = ctx.call(name + ": constructor", c2, ctor)
+        if not ok:
+            continue
+        r = enc_apply(ctx, s, O, name, x, c2)
+        if r is None:
+            continue
+        v = vals[name] = r[0]
+        if Op is not None:
+            want, got = float(np.trace(rho_n @ Op).real), float(np.dot(w, v))
+            ctx.require(name + ": sum_s p(s)/Z * apply(s) == Re tr(rho Op)", abs(got - want) <= 1e-8 + 1e-7 * abs(want), c2,
+                        {"estimator_mean": got, "trace": want, "rho": "numpy, exp(Gamma+ + i Gamma- + Pi) from the parameters read from the live state"})
+        elif twin in vals:
+            ctx.require(twin + ": absolute=True is the pointwise absolute value", bool(np.allclose(v, np.abs(vals[twin]), rtol=1e-12, atol=0)), c2)
+    ctx.traces += 1
+
+
+def arch_block(ctx):
+    """Runs FIRST (independent of VERIF_SEED): every architecture x all parameters random x the construction paths in rotation."""
+    j = 0
+    for idx, (kind, nv, nh, na) in enumerate(arch_list()):
+        ph_aux = False
+        if kind == "mixed":
+            ph_aux = (j % 3 != 2)
+            j += 1
+        # paths rotate with a stride that is coprime to the 3-cycle of the phase aux bias and to the row lengths of the enumeration
+        arch_one(ctx, idx, kind, nv, nh, na, CONSTRUCTION_PATHS[(idx + idx // 4) % 4], ph_aux)
+    ctx.count("architecture block")
+
+
 SCRIPTS = {"buffer": script_buffer, "params": script_params, "stream": script_stream, "objects": script_objects,
            "solo": script_solo, "solo_params": script_solo_params, "encodings": script_encodings}
 
@@ -1773,23 +2004,23 @@ FIXED_HISTORIES = [
     {"script": "buffer", "kind": "positive", "nv": 2, "buffer": "plain", "hseed": 810001},
     {"script": "params", "kind": "complex", "nv": 2, "buffer": "plain", "hseed": 810002},
     {"script": "solo", "kind": "complex", "nv": 2, "buffer": "plain", "hseed": 810013},
-    {"script": "solo_params", "kind": "mixed", "nv": 2, "buffer": "plain", "hseed": 810014, "n_ops": 17},
-    {"script": "buffer", "kind": "mixed", "nv": 2, "buffer": "returned by generate_hilbert_space", "hseed": 810003},
+    {"script": "solo_params", "kind": "mixed", "nv": 2, "buffer": "plain", "hseed": 810014, "n_ops": 17, "ph_aux": True},
+    {"script": "buffer", "kind": "mixed", "nv": 2, "buffer": "returned by generate_hilbert_space", "hseed": 810003, "ph_aux": True},
     {"script": "stream", "kind": "complex", "nv": 3, "hseed": 810004},
-    {"script": "params", "kind": "mixed", "nv": 2, "buffer": "view of a larger tensor", "hseed": 810005},
-    {"script": "objects", "kind": "mixed", "nv": 2, "buffer": "plain", "hseed": 810006},
+    {"script": "params", "kind": "mixed", "nv": 2, "buffer": "view of a larger tensor", "hseed": 810005, "ph_aux": True},
+    {"script": "objects", "kind": "mixed", "nv": 2, "buffer": "plain", "hseed": 810006, "ph_aux": False},
     {"script": "buffer", "kind": "complex", "nv": 3, "buffer": "view of a larger tensor", "hseed": 810007},
     {"script": "params", "kind": "positive", "nv": 3, "buffer": "returned by generate_hilbert_space", "hseed": 810008},
-    {"script": "stream", "kind": "mixed", "nv": 2, "hseed": 810009},
+    {"script": "stream", "kind": "mixed", "nv": 2, "hseed": 810009, "ph_aux": True},
     {"script": "stream", "kind": "positive", "nv": 1, "hseed": 810010},
     {"script": "buffer", "kind": "positive", "nv": 1, "buffer": "every second row of a larger tensor", "hseed": 810011},
     {"script": "objects", "kind": "complex", "nv": 3, "buffer": "column-major storage", "hseed": 810012},
-    {"script": "solo", "kind": "mixed", "nv": 3, "buffer": "view of a larger tensor", "hseed": 810015},
+    {"script": "solo", "kind": "mixed", "nv": 3, "buffer": "view of a larger tensor", "hseed": 810015, "ph_aux": False},
     {"script": "solo_params", "kind": "complex", "nv": 3, "buffer": "returned by generate_hilbert_space", "hseed": 810016, "n_ops": 6},
     {"script": "solo", "kind": "positive", "nv": 2, "buffer": "returned by sample", "hseed": 810017},
     {"script": "solo_params", "kind": "positive", "nv": 2, "buffer": "plain", "hseed": 810018, "n_ops": 17},
     {"script": "encodings", "kind": "complex", "nv": 2, "hseed": 810019},
-    {"script": "encodings", "kind": "mixed", "nv": 3, "hseed": 810020},
+    {"script": "encodings", "kind": "mixed", "nv": 3, "hseed": 810020, "ph_aux": True},
     {"script": "encodings", "kind": "positive", "nv": 3, "hseed": 810021},
 ]
 
@@ -1824,7 +2055,9 @@ def random_history_spec(ctx):
 
 
 def run(ctx):
-    # fixed states in every legal encoding of the sample tensor (dtype x layout): independent of VERIF_SEED, always first
+    # every architecture x every parameter tensor x every construction path, once each: independent of VERIF_SEED, always first
+    arch_block(ctx)
+    # fixed states in every legal encoding of the sample tensor (dtype x layout): independent of VERIF_SEED
     fixed_encoding_block(ctx)
     # fixed histories on the same objects: independent of VERIF_SEED
     for spec in FIXED_HISTORIES:
@@ -1837,7 +2070,8 @@ def run(ctx):
                 ctx.torch_seed()
                 nh = int(ctx.rng.integers(1, nv + 2))
                 na = int(ctx.rng.integers(1, nv + 2)) if kind == "mixed" else 0
-                params = draw(ctx, kind, nv, nh, na)
+                nh, na = widen(ctx, kind, nv, nh, na)
+                params = draw_all(ctx, kind, nv, nh, na)
                 # the > 20000-row batch: first state of every type with nv in (2, 3) that is not skipped for overflow
                 check_state(ctx, kind, nv, nh, na, params, very_long=(nv in (2, 3) and kind not in very_long_done(ctx)))
     # table-fed model: the observable layer alone, on the implementation's own psi / rho values
@@ -1861,7 +2095,7 @@ def table_cases(ctx):
         for nv in (2, 3):
             nh = nv
             na = 2 if kind == "mixed" else 0
-            params = draw(ctx, kind, nv, nh, na)
+            params = draw_all(ctx, kind, nv, nh, na)
             s = build(kind, nv, nh, na, params)
             space, sp = independent_space(ctx, s, nv)
             if not energies_ok(kind, params, sp):
@@ -1891,12 +2125,15 @@ def search(ctx, broken, budget):
     """Wider oracle sweep (no model needed): all small sizes, more draws."""
     t0 = time.time()
     n0 = len(ctx.failures)
+    arch_block(ctx)
+    if len(ctx.failures) > n0:
+        return ctx.failures[n0]
     for rep in range(6):
         for nv in (1, 2, 3, 4):
             for kind in ("positive", "complex", "mixed"):
                 nh = int(ctx.rng.integers(1, nv + 2))
                 na = int(ctx.rng.integers(1, nv + 2)) if kind == "mixed" else 0
-                check_state(ctx, kind, nv, nh, na, draw(ctx, kind, nv, nh, na), with_model=False)
+                check_state(ctx, kind, nv, nh, na, draw_all(ctx, kind, nv, nh, na), with_model=False)
                 if len(ctx.failures) == n0:
                     run_history(ctx, random_history_spec(ctx))
                 if len(ctx.failures) > n0:
@@ -1917,6 +2154,13 @@ def replay(ctx, rec):
     if "params" not in case:
         print("replay: no stored case; re-running the generated cases")
         return run(ctx)
+    if "constructed_through" in case and "arch_index" in case:
+        print("replay of the architecture", case.get("state"), "nv", case.get("nv"), "nh", case.get("nh"), "na", case.get("na"), "built through", case["constructed_through"])
+        arch_one(ctx, case["arch_index"], case["state"], case["nv"], case["nh"], case.get("na", 0), case["constructed_through"],
+                 case.get("phase_aux_bias") == "non-zero", params=case["params"])
+        for f in ctx.failures[:5]:
+            print("  fails:", f["what"], f["detail"][:200])
+        return
     print("replay of", case.get("state"), "nv", case.get("nv"), "nh", case.get("nh"), "observable", case.get("observable"))
     check_state(ctx, case["state"], case["nv"], case["nh"], case.get("na", 0), case["params"], with_model=not case.get("sample_dtype"),
                 very_long=True, encodings="all")
